@@ -551,6 +551,15 @@ func (m *Machine) call(call *ast.CallExpr, f frame, ctx *fnctx) []result {
 				callee = m.States[v.st].Obj
 			case vFunc:
 				callee = v.fn
+			case vPopped:
+				// `next := s.stepStack.Pop(); s.step = next; return next(s, c)`: the popped
+				// step was made current, calling it is the dynamic dispatch
+				if lastStepIsPop(f) && m.argsAreSC(call, f, ctx) {
+					m.Counts["redispatch-dynamic"]++
+					return []result{{f: f, vals: []val{{k: vRedispatch}}, pos: pos}}
+				}
+				m.problem(pos, "a popped step is called without having been made the current step")
+				return []result{{f: f, vals: m.opaqueResults(info.TypeOf(call)), pos: pos}}
 			default:
 				m.problem(pos, "return of a call through an unresolved function value")
 				return []result{{f: f, vals: m.opaqueResults(info.TypeOf(call)), pos: pos}}
@@ -714,6 +723,20 @@ func lastGoto(f frame) (int, bool) {
 		}
 	}
 	return 0, false
+}
+
+// lastStepIsPop: the most recent change of the current step in this frame is
+// `s.step = <value popped from the step stack>`.
+func lastStepIsPop(f frame) bool {
+	for i := len(f.eff) - 1; i >= 0; i-- {
+		switch f.eff[i].Kind {
+		case EGoto:
+			return false
+		case EPopGoto:
+			return true
+		}
+	}
+	return false
 }
 
 // effPos: where an effect is attributed (see frame.site).
